@@ -170,7 +170,6 @@ ExprAt(e, p, c) ==
                                               Rep("dup_arm", p, i, [e EXCEPT !.arms = InsertAt(e.arms, i, e.arms[i])]) >>)
             \o << Rep("scrut_unit", p, 0, [e EXCEPT !.e = UnitE]),
                   Rep("scrut_raw", p, RawAtoms[1], [e EXCEPT !.e = Raw(RawAtoms[1])]) >>
-      [] e.k \in {"cast", "trycast"} -> <<Rep("cast_on_bool", p, 0, [e EXCEPT !.e = BoolE(TRUE)])>>
       [] OTHER -> <<>>
 
 PatAt(q, p, c) ==
@@ -357,7 +356,7 @@ Kinds == {"lit_suffix", "undef_var", "other_var", "swap_args", "drop_arg", "extr
           "if_swap", "if_drop_else", "tuple_drop", "tuple_extra", "array_drop", "array_mixed", "ctor_drop_field", "ctor_dup_field",
           "ctor_undef_field", "ctor_undef_struct", "enum_other_variant", "enum_undef_variant", "enum_undef_enum", "field_undef",
           "field_oob", "field_on_scalar", "index_oob", "index_bool", "index_non_array", "drop_arm", "dup_arm", "scrut_unit",
-          "scrut_raw", "cast_on_bool", "pat_lit_suffix", "pat_lit_huge", "pat_lit_range_inverted", "pat_bool_to_int",
+          "scrut_raw", "pat_lit_suffix", "pat_lit_huge", "pat_lit_range_inverted", "pat_bool_to_int",
           "pat_tuple_drop", "pat_tuple_extra", "pat_drop_field", "pat_undef_field", "pat_other_variant", "pat_undef_variant",
           "pat_bind_to_lit", "pat_or_unbalanced", "let_type", "remove_mut", "let_init_unit", "let_init_self", "let_init_raw",
           "assign_unit", "assign_undef", "assign_deep", "return_wrong", "while_cond_nonbool", "require_code_unit",
